@@ -102,15 +102,17 @@ def cleanup(spec):
         for kind in ("handlers", "mws", "fallbacks", "obs", "ehs", "ctors"):
             for x in spec[kind].values():
                 for (t, _) in x.get("ins", []):
-                    needed.add(t)
+                    needed.add(t.split("<")[0])
+                    if "<" in t:
+                        needed.add(t[t.index("<") + 1:-1])
         for cid in list(spec["ctors"]):
-            if spec["ctors"][cid]["out"] not in needed:
+            if spec["ctors"][cid]["out"].split("<")[0] not in needed:
                 del spec["ctors"][cid]
                 for (path, i, it) in list(bp_items(spec["bp"])):
                     if it[0] == "ctor" and it[1] == cid:
                         get_bp(spec, path)["items"].remove(it)
                 changed = True
-    used_types = set(c["out"] for c in spec["ctors"].values())
+    used_types = set(c["out"].split("<")[0] for c in spec["ctors"].values())
     for t in list(spec["types"]):
         if t not in used_types:
             del spec["types"][t]
